@@ -79,9 +79,15 @@ pub struct Prot {
 
 /// Draw a protected header: decoded from wire (styled bytes), built empty, or built non-empty.
 pub fn gen_prot(g: &mut Gen, ctx: &mut Ctx) -> Result<Prot, String> {
-    let content = match g.weighted(&[2, 8, 1]) {
+    let content = match g.weighted(&[2, 8, 1, 1]) {
         0 => None,
         1 => Some(gen_header(g, &mut Faults::none(), 1)),
+        3 => {
+            // a chain of nested counter-signatures, up to the depth the decoder admits
+            let d = *g.pick(&[2usize, 4, 6, 7, 8, 8]);
+            ctx.classf(format!("protected:countersig-chain-depth-{}", d));
+            Some(countersig_chain_header(g, d))
+        }
         _ => {
             // a header whose deterministic encoding has a length on a CBOR length-class boundary:
             // {4: h'..n bytes..'} encodes to 2 + head(n) + n bytes
@@ -103,8 +109,39 @@ pub fn gen_prot(g: &mut Gen, ctx: &mut Ctx) -> Result<Prot, String> {
 /// body and signer headers that are equal as values but not as bytes.
 pub fn gen_prot_pair_same_content(g: &mut Gen, ctx: &mut Ctx) -> Result<(Prot, Prot), String> {
     let content = gen_header(g, &mut Faults::none(), 1);
+    if g.ratio(1, 3) {
+        // equal under `==` but not identical: the two headers differ only in the sign of a float
+        // zero inside an extra parameter (0.0 == -0.0, yet they encode differently)
+        if let Item::Map(m) = &content {
+            let label = Item::Int(900 + g.range_i64(0, 50) as i128);
+            let wrap = |z: f64, deep: bool| if deep { Item::Array(vec![Item::Int(1), Item::Map(vec![(Item::Int(2), Item::Float(z))])]) } else { Item::Float(z) };
+            let deep = g.bool();
+            let mut a = m.clone();
+            let mut b = m.clone();
+            a.push((label.clone(), wrap(0.0, deep)));
+            b.push((label, wrap(-0.0, deep)));
+            ctx.class("protected:pair-equal-but-not-identical");
+            return Ok((gen_prot_with(g, ctx, Some(Item::Map(a)))?, gen_prot_with(g, ctx, Some(Item::Map(b)))?));
+        }
+    }
     ctx.class("protected:pair-with-same-content");
     Ok((gen_prot_with(g, ctx, Some(content.clone()))?, gen_prot_with(g, ctx, Some(content))?))
+}
+
+/// A header map holding a chain of `depth` nested counter-signatures (each level carried in the
+/// protected or the unprotected header of the level above; the innermost signature has a
+/// non-empty protected header).  The decoder admits chains of up to 8 levels.
+pub fn countersig_chain_header(g: &mut Gen, depth: usize) -> Item {
+    let mut sig = Item::Array(vec![Wrapped::new(Item::Map(vec![(Item::Int(1), Item::Int(-7))])), Item::Map(vec![]), Item::Bytes(vec![0x5e])]);
+    for level in 1..depth {
+        let hdr = Item::Map(vec![(Item::Int(7), if g.ratio(1, 4) { Item::Array(vec![sig]) } else { sig })]);
+        sig = if g.bool() {
+            Item::Array(vec![Wrapped::new(hdr), Item::Map(vec![]), Item::Bytes(vec![level as u8])])
+        } else {
+            Item::Array(vec![Item::Bytes(vec![]), hdr, Item::Bytes(vec![level as u8])])
+        };
+    }
+    Item::Map(vec![(Item::Int(7), sig)])
 }
 
 /// A protected header with the given content (None = the empty header): decoded from wire at a
@@ -130,7 +167,17 @@ pub fn gen_prot_with(g: &mut Gen, ctx: &mut Ctx, content: Option<Item>) -> Resul
             // the position the header is decoded at: message body, or inside a counter-signature
             // carried by the unprotected / protected header of a message (depth 1), or inside a
             // counter-signature of a counter-signature (depth 2), a COSE_Sign signer, a nested recipient
-            let position = g.weighted(&[4, 2, 2, 1, 1, 1]);
+            // counter-signature levels the content itself holds (the decoder admits 8 in total)
+            fn cs_depth(i: &Item) -> usize {
+                match i {
+                    Item::Map(m) => m.iter().map(|(k, v)| if k == &Item::Int(7) { 1 + cs_depth(v) } else { 0 }).max().unwrap_or(0),
+                    Item::Array(a) => a.iter().map(cs_depth).max().unwrap_or(0),
+                    Item::Wrapped(w) => cs_depth(&w.inner),
+                    _ => 0,
+                }
+            }
+            let inner_depth = cs_depth(&slot);
+            let position = if inner_depth >= 7 { *g.pick(&[0usize, 0, 4, 5]) } else if inner_depth >= 6 { *g.pick(&[0usize, 1, 2, 4, 5]) } else { g.weighted(&[4, 2, 2, 1, 1, 1]) };
             let sig = |p: Item, u: Item| Item::Array(vec![p, u, Item::Bytes(vec![0x53])]);
             let cs_hdr = |s: Item| Item::Map(vec![(Item::Int(7), s)]);
             let top = match position {
